@@ -249,16 +249,30 @@ func (o *fanRtspObs) OnNewRtspSubSessionPlay(s *rtsp.SubSession) error {
 
 // fanSdp: the SDP every RTSP history announces: video PT 96 (H264 / H265 / a codec lal does not know), audio PT 97
 func fanSdp(v string, uniq string) []byte {
+	// v = <video><audio>: video a = H264, h = H265, n = no video section, anything else = a codec lal does not know;
+	// audio (optional) g = PCMA, p = Opus, default AAC
 	enc := "VP8"
-	switch v {
+	switch v[:1] {
 	case "a":
 		enc = "H264"
 	case "h":
 		enc = "H265"
 	}
-	return []byte("v=0\r\no=- 0 0 IN IP4 127.0.0.1\r\ns=" + uniq + "\r\nc=IN IP4 127.0.0.1\r\nt=0 0\r\n" +
-		"m=video 0 RTP/AVP 96\r\na=rtpmap:96 " + enc + "/90000\r\na=control:streamid=0\r\n" +
-		"m=audio 0 RTP/AVP 97\r\na=rtpmap:97 MPEG4-GENERIC/44100/2\r\na=fmtp:97 profile-level-id=1;mode=AAC-hbr;sizelength=13;indexlength=3;indexdeltalength=3; config=1210\r\na=control:streamid=1\r\n")
+	audio := "a=rtpmap:97 MPEG4-GENERIC/44100/2\r\na=fmtp:97 profile-level-id=1;mode=AAC-hbr;sizelength=13;indexlength=3;indexdeltalength=3; config=1210\r\n"
+	if len(v) > 1 {
+		switch v[1:2] {
+		case "g":
+			audio = "a=rtpmap:97 PCMA/8000/1\r\n"
+		case "p":
+			audio = "a=rtpmap:97 opus/48000/2\r\n"
+		}
+	}
+	video := "m=video 0 RTP/AVP 96\r\na=rtpmap:96 " + enc + "/90000\r\na=control:streamid=0\r\n"
+	if v[:1] == "n" {
+		video = ""
+	}
+	return []byte("v=0\r\no=- 0 0 IN IP4 127.0.0.1\r\ns=" + uniq + "\r\nc=IN IP4 127.0.0.1\r\nt=0 0\r\n" + video +
+		"m=audio 0 RTP/AVP 97\r\n" + audio + "a=control:streamid=1\r\n")
 }
 
 // labelRtspStream parses what an RTSP subscriber's command connection received: RTSP
@@ -704,7 +718,11 @@ func runFanoutHistory(cfgTok, evTok string) string {
 			if !ok || c.kind != 'd' || c.pc.isClosed() || c.sub.Stage.Load() != rtsp.SubSessionStageWriteSdp {
 				break // a client sends SETUP / PLAY only after it has the DESCRIBE response
 			}
-			c.pc.feed([]byte("SETUP rtsp://127.0.0.1/live/s/streamid=0 RTSP/1.0\r\nCSeq: 2\r\nTransport: RTP/AVP/TCP;unicast;interleaved=0-1\r\n\r\n" +
+			setupVideo := "SETUP rtsp://127.0.0.1/live/s/streamid=0 RTSP/1.0\r\nCSeq: 2\r\nTransport: RTP/AVP/TCP;unicast;interleaved=0-1\r\n\r\n"
+			if !bytes.Contains(c.pc.all(), []byte("m=video")) {
+				setupVideo = "" // the SDP this session was given has no video section
+			}
+			c.pc.feed([]byte(setupVideo +
 				"SETUP rtsp://127.0.0.1/live/s/streamid=1 RTSP/1.0\r\nCSeq: 3\r\nTransport: RTP/AVP/TCP;unicast;interleaved=2-3\r\n\r\n" +
 				"PLAY rtsp://127.0.0.1/live/s RTSP/1.0\r\nCSeq: 4\r\n\r\n"))
 			if !c.pc.waitParked() || c.pc.isClosed() {
